@@ -14,9 +14,9 @@ use std::collections::HashSet;
 pub fn gens() -> Vec<Gen> {
     vec![
         Gen { name: "c10.disclosure_lists", prop: "C10", tags: &["parse", "empty", "disclosure", "compact", "src/lib.rs"], cases: cases_lists, check },
-        Gen { name: "c10.holder", prop: "C10", tags: &["holder", "create_presentation", "kb_jwt", "src/holder.rs"], cases: cases_holder, check },
         Gen { name: "c10.kb", prop: "C10", tags: &["kb", "sd_hash", "verify_key_binding", "src/verifier.rs"], cases: cases_kb, check },
         Gen { name: "c10.tampered_jwt", prop: "C10", tags: &["tamper", "jwt"], cases: cases_tampered, check },
+        Gen { name: "c10.holder", prop: "C10", tags: &["holder", "create_presentation", "kb_jwt", "src/holder.rs"], cases: cases_holder, check },
     ]
 }
 
